@@ -241,3 +241,57 @@ def run(ck, kernels, tier, structure_only=False):
                               + json.dumps(C._jsonable(_enc_case(t)))[:3000])
         ck.count(1, sig=("kerneldiff", f, t["meta"].get("k"), t["meta"].get("rich"), i["status"]))
     ck.cov.setdefault("tie_c", {})["kernel_three_way"] = stats
+    if ck.prop == "C05":
+        scaling_oracle(ck, [t for t in tasks if t["op"] in ("sweep2", "sweep3")],
+                       [i for t, i in zip(tasks, impl) if t["op"] in ("sweep2", "sweep3")])
+
+
+def scaling_oracle(ck, tasks, base):
+    """C05 at kernel granularity, on the running code: one call of `sweep` commutes with a change of
+    the length unit (spacings and times x c) and of the slowness unit (slownesses, vzero and times x c).
+    Cases that involve the constant Big (which has no unit) are skipped."""
+    twins, ref = [], []
+    for t, b in zip(tasks, base):
+        if b["status"] != "ok" or np.any(np.asarray(t["tt"]) >= 1e4) or np.any(np.asarray(b["tt"]) >= 1e4):
+            continue
+        for kind in ("length", "slowness"):
+            for c in (2.0, 0.5, 3.0):
+                # a factor that is not a power of two perturbs every product by rounding: at an exact tie of a
+                # guard the branch may flip (a discontinuity of the scheme, not a unit error), so such factors
+                # are only applied to generic (random, no injected tie) inputs
+                if c == 3.0 and (t["meta"].get("rich") or t["meta"].get("k") in (0, 1, 2, 3)):
+                    continue
+                u = dict(t)
+                u["tt"] = np.asarray(t["tt"]) * c
+                if kind == "length":
+                    for k in ("dz", "dx", "dy"):
+                        if k in u:
+                            u[k] = t[k] * c
+                else:
+                    u["slow"] = np.asarray(t["slow"]) * c
+                    if "vzero" in u:
+                        u["vzero"] = t["vzero"] * c
+                twins.append(u)
+                ref.append((t, b, kind, c))
+    if not twins:
+        return
+    out = C.run_impl(twins, "interp")
+    n = bad = 0
+    for (t, b, kind, c), o in zip(ref, out):
+        n += 1
+        if o["status"] != "ok":
+            continue
+        want = np.asarray(b["tt"]) * c
+        got = np.asarray(o["tt"])
+        if np.any(got >= 1e4) or np.any(want >= 1e4):
+            continue          # Big took part in the update
+        exact = c in (2.0, 0.5)        # powers of two: bit-for-bit, including the sign bookkeeping
+        dev = float(np.max(np.abs(got - want)) / max(float(np.max(np.abs(want))), 1e-300))
+        # other factors: values to rounding; the equality-based sign bookkeeping may legitimately flip on ties
+        same_sgn = (not exact) or np.array_equal(np.asarray(o["sgn"]), np.asarray(b["sgn"]))
+        if dev > (0.0 if exact else 1e-12) or not same_sgn:
+            bad += 1
+            if bad <= 3:
+                ck.violation(f"one call of sweep does not commute with a change of the {kind} unit (factor {c})",
+                             {"case": _enc_case(t), "kind": kind, "c": c, "rel_dev": dev, "sign_bookkeeping_equal": bool(same_sgn)})
+    ck.cov.setdefault("tie_c", {})["kernel_scaling_oracle"] = {"twin_calls": n, "violations": bad}
